@@ -559,5 +559,5 @@ def run(ctx: Ctx, rep: Report, tier: str) -> None:
 
 
 # what the later rounds (seeding rounds 2-5, refactor twins, defect hunt) added to what the check decides
-LATER_ROUNDS = "members converted to ios lose their number on every path, no conversion loop rebuilds the member list it iterates, derived name tables are re-derived, group names survive the re-read under the other keyword"
+LATER_ROUNDS = "members converted to ios lose their number on every path, no conversion loop rebuilds the member list it iterates, derived name tables are re-derived, group names survive the re-read under the other keyword, nothing re-assigns the member list between storing the platform and converting the members"
 EXPLANATION = EXPLANATION.replace(" Does not decide", " Later rounds added: " + LATER_ROUNDS + ". Does not decide", 1) if " Does not decide" in EXPLANATION else EXPLANATION + " Later rounds added: " + LATER_ROUNDS + "."
